@@ -73,6 +73,13 @@ def key(rng):
     return bytes(rng.randrange(1, 256) for _ in range(rng.choice([1, 3, 16, 64, 65, 100])))
 
 
+def gen_run(exe, rng, tier):
+    # LogMAC / FTicksMAC / FTicksReporting as WRITTEN in a configuration file (any letter case, before or after the blocks), taken in by
+    # the real getmainconfig(): the mode each is understood as is the mode the formatters are then checked under
+    import worldhist as WH
+    return WH.run_parallel(exe, rng, 150 if tier == "quick" else 3000, WH.cfg_only_history)
+
+
 def gen(rng, tier):
     from rspcheck import Case
     cs = [Case("ascii -", kind="ascii", nt=False)]
